@@ -200,6 +200,10 @@ theorem Inv.step {n₀ : Nat} {s s' : St} (hi : Inv n₀ s) {l : Label} (h : s.s
     simp only [St.step, Option.some.injEq] at h
     subst h
     exact hi
+  | setHandler hh =>
+    simp only [St.step, Option.some.injEq] at h
+    subst h
+    exact { hn := hi.hn, hk := hi.hk, hwg := hi.hwg, hkn := hi.hkn, htasks := hi.htasks, hwait := hi.hwait }
   | waitRet j =>
     simp only [St.step] at h
     split at h
